@@ -269,6 +269,7 @@ func Rank(w *load.World, c *core.Collector) {
 	vamanaSeedWindow(w, c)
 	rankFlat(w, c)
 	rankText(w, c)
+	weightDefaults(w, c)
 }
 
 func isParamOrCapture(f *ssa.Function, typeName string) func(ssa.Value) bool {
@@ -535,6 +536,62 @@ func rankVamana(w *load.World, c *core.Collector) {
 			}
 		}
 	}
+	// with a filter the set that is returned is a separate one: the unfiltered search set, which takes
+	// every neighbour on the way, reaches the result variable only over the "no filter" edge
+	{
+		var nilEdges []ssax.Edge
+		for _, e := range fe {
+			isContains := false
+			for _, ce := range contains {
+				if ce == e {
+					isContains = true
+				}
+			}
+			if !isContains {
+				nilEdges = append(nilEdges, e)
+			}
+		}
+		checked, bad := 0, ""
+		for _, b := range gs.Blocks {
+			r, ok := b.Instrs[len(b.Instrs)-1].(*ssa.Return)
+			if !ok || len(r.Results) == 0 {
+				continue
+			}
+			if n := len(r.Results); n > 0 && isErrorType(r.Results[n-1].Type()) && !ssax.IsNilConst(ssax.ReturnOperand(r, n-1)) {
+				continue
+			}
+			ld, ok := ssax.ReturnOperand(r, 0).(*ssa.UnOp)
+			if !ok || ld.Op != token.MUL {
+				continue
+			}
+			phi, ok := ld.X.(*ssa.Phi)
+			if !ok {
+				continue
+			}
+			// the sets that arrive over a no-filter edge are the unfiltered ones
+			unfiltered := map[ssa.Value]bool{}
+			for i, e := range phi.Edges {
+				if edgeOnlyVia(nilEdges, phi.Block().Preds[i], phi.Block()) {
+					unfiltered[e] = true
+				}
+			}
+			if len(unfiltered) == 0 {
+				continue
+			}
+			checked++
+			for i, e := range phi.Edges {
+				if unfiltered[e] && !edgeOnlyVia(nilEdges, phi.Block().Preds[i], phi.Block()) {
+					bad = w.At(phi)
+				}
+			}
+		}
+		switch {
+		case bad != "":
+			c.Add("RANK", "vamana:filtered-set-separate", core.Violation, bad, "with a filter given the search can still return its unfiltered search set (the separate filtered set is not installed on every path): points outside the pre-filter are returned", props...)
+		case checked > 0:
+			c.Add("RANK", "vamana:filtered-set-separate", core.OK, w.Position(gs.Pos()), "", props...)
+		}
+	}
 	if n < 2 {
 		c.Add("RANK", "anchor:vamana-filter-adds", core.Undecided, w.Position(gs.Pos()), fmt.Sprintf("found %d adds to the filtered result set in greedySearch, expected 2", n), props...)
 	}
@@ -715,6 +772,55 @@ func rankText(w *load.World, c *core.Collector) {
 					cut = x
 				}
 			}
+		}
+	}
+	// every term of the query contributes its posting set: in the loop that collects the sets, every
+	// way back to the loop head goes through the append (a term that is skipped — an absent term has
+	// an empty set — would drop out of the intersection, and containsAll would match without it)
+	{
+		isSetAppend := func(in ssa.Instruction) bool {
+			call, ok := in.(*ssa.Call)
+			if !ok {
+				return false
+			}
+			bi, ok := call.Call.Value.(*ssa.Builtin)
+			if !ok || bi.Name() != "append" {
+				return false
+			}
+			sl, ok := call.Type().Underlying().(*types.Slice)
+			return ok && strings.HasSuffix(sl.Elem().String(), "roaring64.Bitmap")
+		}
+		h := homeOf(f, func(g *ssa.Function) bool {
+			for _, b := range g.Blocks {
+				for _, in := range b.Instrs {
+					if isSetAppend(in) && inLoop(b) {
+						return true
+					}
+				}
+			}
+			return false
+		})
+		nApp := 0
+		for _, b := range h.Blocks {
+			for _, in := range b.Instrs {
+				if !isSetAppend(in) || !inLoop(b) {
+					continue
+				}
+				nApp++
+				bad := ""
+				if skippableInLoop(in) {
+					bad = "skip"
+				}
+				key := fmt.Sprintf("text:every-term-set#%d", nApp)
+				if bad != "" {
+					c.Add("RANK", key, core.Violation, w.At(in), "the loop that collects the posting sets of the query terms can go on to the next term without adding the set of this one: the term drops out of the intersection and containsAll matches documents that lack it", props...)
+				} else {
+					c.Add("RANK", key, core.OK, w.At(in), "", props...)
+				}
+			}
+		}
+		if nApp == 0 {
+			c.Add("RANK", "anchor:text-term-sets", core.Undecided, w.Position(f.Pos()), "the loop that collects the posting sets of the query terms was not found", props...)
 		}
 	}
 	// operator table (in Search itself, or in a helper it calls that combines the term sets)
@@ -1688,4 +1794,248 @@ func returnsRestricted(h *ssa.Function, flt *ssa.Parameter, depth int) bool {
 		}
 	}
 	return found
+}
+
+// weightDefaults: a query's weight is optional (a pointer). The default 1 is what a search
+// uses when it was not given — and only then: an explicit weight, whatever its value (zero,
+// negative), must reach the score. For every variable that takes the value of a Weight
+// field: the constant default reaches it only over the "Weight == nil" edge.
+func weightDefaults(w *load.World, c *core.Collector) {
+	props := []string{"C03", "C05", "C06"}
+	n := 0
+	for _, f := range w.Fns {
+		if !load.InMod(f) || !(strings.Contains(load.PkgPath(f), "/shard/index") || strings.HasSuffix(load.PkgPath(f), "/models")) {
+			continue
+		}
+		props := []string{"C03", "C04", "C05", "C06"}
+		switch {
+		case strings.HasSuffix(load.PkgPath(f), "/vamana"):
+			props = []string{"C03", "C06"}
+		case strings.HasSuffix(load.PkgPath(f), "/text"):
+			props = []string{"C05", "C06"}
+		case strings.HasSuffix(load.PkgPath(f), "/flat"):
+			props = []string{"C04", "C06"}
+		}
+		// a pointer to a query weight: the Weight field of an options struct, or a *float32
+		// parameter that every caller binds to one
+		var isWeightPtr func(v ssa.Value, depth int) bool
+		isWeightPtr = func(v ssa.Value, depth int) bool {
+			switch x := v.(type) {
+			case *ssa.UnOp:
+				if x.Op != token.MUL {
+					return false
+				}
+				if fa, ok := x.X.(*ssa.FieldAddr); ok {
+					st := ssax.StructOf(fa.X.Type())
+					return st != nil && st.Field(fa.Field).Name() == "Weight"
+				}
+			case *ssa.Field:
+				st := ssax.StructOf(x.X.Type())
+				return st != nil && st.Field(x.Field).Name() == "Weight"
+			case *ssa.Parameter:
+				if depth > 0 || x.Type().String() != "*float32" {
+					return false
+				}
+				sites := staticCallSites(w, x.Parent())
+				idx := -1
+				for i, q := range x.Parent().Params {
+					if q == x {
+						idx = i
+					}
+				}
+				if len(sites) == 0 || idx < 0 {
+					return false
+				}
+				for _, site := range sites {
+					if idx >= len(site.Common().Args) || !isWeightPtr(site.Common().Args[idx], depth+1) {
+						return false
+					}
+				}
+				return true
+			}
+			return false
+		}
+		isWeightLoad := func(v ssa.Value) bool {
+			ld, ok := v.(*ssa.UnOp)
+			return ok && ld.Op == token.MUL && isWeightPtr(ld.X, 0)
+		}
+		// edges on which the weight pointer is nil / not nil
+		var nilEdges, nonNilEdges []ssax.Edge
+		for _, b := range f.Blocks {
+			ifi, ok := b.Instrs[len(b.Instrs)-1].(*ssa.If)
+			if !ok {
+				continue
+			}
+			bo, neg, ok := condBinOp(ifi.Cond, 0)
+			if !ok || (bo.Op != token.EQL && bo.Op != token.NEQ) || !(ssax.IsNilConst(bo.X) || ssax.IsNilConst(bo.Y)) {
+				continue
+			}
+			other := bo.X
+			if ssax.IsNilConst(bo.X) {
+				other = bo.Y
+			}
+			if !isWeightPtr(other, 0) {
+				continue
+			}
+			nilSucc := 0
+			if (bo.Op == token.NEQ) != neg {
+				nilSucc = 1
+			}
+			nilEdges = append(nilEdges, ssax.Edge{From: b, Succ: nilSucc})
+			nonNilEdges = append(nonNilEdges, ssax.Edge{From: b, Succ: 1 - nilSucc})
+		}
+		// "if w == nil { return 1 }; return *w" in a helper
+		{
+			var loads, consts []*ssa.Return
+			for _, b := range f.Blocks {
+				r, ok := b.Instrs[len(b.Instrs)-1].(*ssa.Return)
+				if !ok || len(r.Results) != 1 {
+					continue
+				}
+				if isWeightLoad(r.Results[0]) {
+					loads = append(loads, r)
+				} else if _, isC := r.Results[0].(*ssa.Const); isC {
+					consts = append(consts, r)
+				}
+			}
+			if len(loads) > 0 {
+				n++
+				key := "weight-default:" + load.FnKey(f)
+				bad := false
+				for _, r := range consts {
+					if !onlyViaAny(nilEdges, r.Block()) {
+						bad = true
+					}
+				}
+				if bad {
+					c.Add("RANK", key, core.Violation, w.Position(f.Pos()), "the default weight is returned on a path where the query gave a weight explicitly: a weight of zero or below is ignored and the hybrid score changes", props...)
+				} else {
+					c.Add("RANK", key, core.OK, w.Position(f.Pos()), "", props...)
+				}
+			}
+		}
+		for _, b := range f.Blocks {
+			for _, in := range b.Instrs {
+				switch x := in.(type) {
+				case *ssa.Phi:
+					has := false
+					for _, e := range x.Edges {
+						if isWeightLoad(e) {
+							has = true
+						}
+					}
+					if !has {
+						continue
+					}
+					n++
+					key := "weight-default:" + load.FnKey(f)
+					bad := false
+					for i, e := range x.Edges {
+						if _, isC := e.(*ssa.Const); isC && !edgeOnlyVia(nilEdges, b.Preds[i], b) {
+							bad = true
+						}
+					}
+					if bad {
+						c.Add("RANK", key, core.Violation, w.Position(x.Pos()), "the default weight replaces a weight that the query gave explicitly (the constant reaches the variable on a path where Weight is not nil): a weight of zero or below is ignored and the hybrid score changes", props...)
+					} else {
+						c.Add("RANK", key, core.OK, w.Position(x.Pos()), "", props...)
+					}
+				case *ssa.Store:
+					cell, ok := x.Addr.(*ssa.Alloc)
+					if !ok || !isWeightLoad(x.Val) {
+						continue
+					}
+					n++
+					key := "weight-default:" + load.FnKey(f)
+					// from the not-nil edge every way to a read of the variable goes through this store
+					bad := false
+					for _, e := range nonNilEdges {
+						from := e.From.Succs[e.Succ]
+						seen := map[*ssa.BasicBlock]bool{b: true}
+						var dfs func(bb *ssa.BasicBlock) bool
+						dfs = func(bb *ssa.BasicBlock) bool {
+							if seen[bb] {
+								return false
+							}
+							seen[bb] = true
+							for _, ii := range bb.Instrs {
+								if ld, ok := ii.(*ssa.UnOp); ok && ld.Op == token.MUL && ld.X == ssa.Value(cell) {
+									return true
+								}
+								if mc, ok := ii.(*ssa.MakeClosure); ok {
+									for _, bnd := range mc.Bindings {
+										if bnd == ssa.Value(cell) {
+											return true
+										}
+									}
+								}
+							}
+							for _, s := range bb.Succs {
+								if dfs(s) {
+									return true
+								}
+							}
+							return false
+						}
+						if from != b && dfs(from) {
+							bad = true
+						}
+					}
+					if bad || len(nonNilEdges) == 0 {
+						c.Add("RANK", key, core.Violation, w.At(x), "the default weight replaces a weight that the query gave explicitly (the variable is read on a path where Weight is not nil and was not assigned): a weight of zero or below is ignored and the hybrid score changes", props...)
+					} else {
+						c.Add("RANK", key, core.OK, w.At(x), "", props...)
+					}
+				}
+			}
+		}
+	}
+	c.Count("weight_defaults", n)
+	if n < 1 {
+		c.Add("RANK", "anchor:weight-defaults", core.Undecided, "", fmt.Sprintf("found %d places where a query weight is taken, expected at least 1", n), props...)
+	}
+}
+
+// skippableInLoop: the instruction sits in a loop and an iteration can go round (from the loop
+// head back to the loop head) without executing it.
+func skippableInLoop(in ssa.Instruction) bool {
+	b := in.Block()
+	h := b.Parent()
+	for _, hd := range h.Blocks {
+		if hd == b || !(ssax.Reaches(hd, b) && ssax.Reaches(b, hd)) {
+			continue
+		}
+		leaves := false
+		for _, s := range hd.Succs {
+			if !(ssax.Reaches(s, hd)) {
+				leaves = true
+			}
+		}
+		if !leaves || !hd.Dominates(b) {
+			continue
+		}
+		seen := map[*ssa.BasicBlock]bool{b: true}
+		var dfs func(x *ssa.BasicBlock) bool
+		dfs = func(x *ssa.BasicBlock) bool {
+			if x == hd {
+				return true
+			}
+			if seen[x] {
+				return false
+			}
+			seen[x] = true
+			for _, s := range x.Succs {
+				if dfs(s) {
+					return true
+				}
+			}
+			return false
+		}
+		for _, s := range hd.Succs {
+			if ssax.Reaches(s, hd) && s != b && dfs(s) {
+				return true
+			}
+		}
+	}
+	return false
 }
